@@ -202,10 +202,27 @@ def make(targets, timeout=1500):
     return rc, out, dt, cmd
 
 
-def coqc_props(prop_file, timeout=300):
-    """Re-run coqc on the (tiny) Props file to capture Print Assumptions for every theorem."""
+def coqc_props(prop_file, timeout=1500):
+    """Re-run coqc on the Props file to capture Print Assumptions for every theorem.  The output is cached next to the
+    replay files and reused only while the compiled Props/Cxx.vo (which make rebuilds whenever anything it depends on
+    changes) is older than the cache entry and has the recorded size/mtime."""
     cmd = f"timeout {timeout} coqc -Q . PTQ -w -notation-overridden {prop_file}"
+    vo = os.path.join(COQ, prop_file + "o")
+    cache = os.path.join(OUT, os.path.basename(prop_file)[:-2], "assumptions.json")
+    try:
+        st = os.stat(vo)
+        c = json.load(open(cache))
+        if c["vo_mtime"] == st.st_mtime and c["vo_size"] == st.st_size and c["rc"] == 0:
+            return 0, c["out"], 0.0, cmd + "   # (output cached from the run that compiled this .vo)"
+    except Exception:
+        pass
     rc, out, dt = sh(cmd, cwd=COQ, timeout=timeout + 30)
+    try:
+        st = os.stat(vo)
+        os.makedirs(os.path.dirname(cache), exist_ok=True)
+        json.dump({"vo_mtime": st.st_mtime, "vo_size": st.st_size, "rc": rc, "out": out}, open(cache, "w"))
+    except Exception:
+        pass
     return rc, out, dt, cmd
 
 
